@@ -1,10 +1,13 @@
 (** Json — the specification object of C01: a JSON AST and a STRICT RFC 8259 parser.
 
-    The parser is executable (fuel) and deliberately stricter than most decoders:
-    raw control bytes (< 0x20) inside strings, invalid UTF-8 (Go's definition:
-    overlongs, surrogates, > U+10FFFF, truncations), lone surrogates in [\u] escapes,
-    unknown escapes, leading zeros / malformed numbers, trailing commas and (at top
-    level) trailing garbage are all rejected.  Valid [\uD8xx\uDCxx] pairs are combined.
+    The parser is executable (fuel) and strict: raw control bytes (< 0x20) inside strings,
+    lone surrogates in [\u] escapes, unknown escapes, leading zeros / malformed numbers,
+    trailing commas and (at top level) trailing garbage are all rejected.  Valid
+    [\uD8xx\uDCxx] pairs are combined.  One leniency, the one of encoding/json's decoder and the
+    one the property talks about: a byte that is not part of a valid UTF-8 sequence (Go's
+    definition: overlongs, surrogates, > U+10FFFF, truncations) INSIDE A STRING reads as
+    U+FFFD (EF BF BD) and the scan advances by one byte; the decoded strings are therefore
+    always valid UTF-8.  Invalid bytes outside strings are syntax errors.
     Whitespace (space, TAB, LF, CR) is accepted wherever RFC 8259 allows it.
     Object members are kept in order, duplicates included.
 
@@ -105,7 +108,8 @@ Fixpoint psb (fuel : nat) (s : list N) : option (list N * list N) :=
       else if b <? 128 then match psb f t with Some (o, r') => Some (b :: o, r') | None => None end
       else
         let d := decode s in
-        if invalid d then None
+        if invalid d then                      (* like encoding/json's decoder: one invalid byte reads as U+FFFD *)
+          match psb f t with Some (o, r') => Some (239 :: 191 :: 189 :: o, r') | None => None end
         else match psb f (skipn (snd d) s) with
              | Some (o, r') => Some (firstn (snd d) s ++ o, r')
              | None => None
